@@ -299,6 +299,11 @@ pub fn harness_a(a: &Args, shared: &SharedReport, th: bool, prop: &str) {
         }
         // the twin-violations races need three preemptions (both workers between their look-up and their insertion,
         // then the first one again): that one model is explored one bound deeper, also in quick
+        if let Ok(f) = std::env::var("VERIF_E2_ONLY") {
+            if !case.name.contains(&f) {
+                continue;
+            }
+        }
         // (the twin-violations race needs three preemptions - both workers between their look-up and their insertion,
         // then the first one again: it is within the thorough tier's bound, not within quick's)
         let max_exec = if th { 20_000 } else { 8_000 };
